@@ -501,6 +501,11 @@ func (vs *ValidatorStore) GetEndBlockUpdate(ctx *ValidatorContext, req types.Req
 			keysLA = append(keysLA, k)
 		}
 		sort.Strings(keysLA)
+		// Tendermint refuses an update that empties its validator set, and the chain
+		// halts for good: while the election leaves nobody, the last active validators stay
+		if activeCount == 0 {
+			keysLA = nil
+		}
 
 		for _, addr := range keysLA {
 			addrHuman := keys.Address(addr).Humanize()
